@@ -216,6 +216,13 @@ _M = {"al_p.py": "shared = ('al_p', 'shared')\nfa = ('al_p', 'fa')\njson = ('al_
       "pk_p/helpers.py": "helper = ('pk_p.helpers', 'helper')\n",
       "pk_p/tup.py": "__all__ = ('t1',) + ('t2',)\nt1 = ('pk_p.tup', 't1')\nt2 = ('pk_p.tup', 't2')\nt3 = ('pk_p.tup', 't3')\n",
       "helpers.py": "helper = ('top-level helpers', 'helper')\n",
+      # modules of one name on several levels: pk_p/settings.py, pk_p/appdir0/settings.py (beside the client of an `init` probe) and a top-level settings.py
+      "pk_p/settings.py": "VERSION = ('pk_p.settings', 'VERSION')\ndef load():\n    return ('pk_p.settings', 'load')\n",
+      "pk_p/appdir0/settings.py": "VERSION = ('pk_p.appdir0.settings', 'VERSION')\ndef load():\n    return ('pk_p.appdir0.settings', 'load')\n",
+      "settings.py": "VERSION = ('top-level settings', 'VERSION')\ndef load():\n    return ('top-level settings', 'load')\n",
+      # __all__ bound on several paths of which one runs
+      "branchy_p.py": "fast = ('branchy_p', 'fast')\nslow = ('branchy_p', 'slow')\nextra = ('branchy_p', 'extra')\ntry:\n    import json\n    __all__ = ['fast', 'slow', 'extra']\nexcept ImportError:\n    __all__ = ['slow']\n",
+      "branchy2_p.py": "quick = ('branchy2_p', 'quick')\nsteady = ('branchy2_p', 'steady')\nif len('a') == 1:\n    __all__ = ['quick', 'steady']\nelse:\n    __all__ = ['steady']\n\n\ndef _unused():\n    __all__ = ['nothing']\n    return __all__\n",
       "extra_p/ga_p.py": "KG = ('ga_p', 'KG')\n"}
 PROBES = [
     (_M, "root", "try:\n    from collections import *\nexcept ImportError:\n    pass\nsee('1:OrderedDict', OrderedDict)\n"),
@@ -239,6 +246,12 @@ PROBES = [
     (_M, "root", "def one():\n    import os\n    see('1:os', os)\n    return os.sep\n\n\ndef two():\n    import os\n    see('2:os', os)\n    return os.sep\n\n\nsee('call', one() + two())\n"),
     (_M, "root", "import collections as m\nsee('1:m', m)\nimport textwrap as m\nsee('2:m', m)\n"),
     (_M, "root", "import os.path\nimport xml.dom.minidom\nsee('1:os.sep', os.sep)\nsee('2:xml', xml)\n"),
+    (_M, "root", "from branchy_p import *\nsee('1:fast', fast)\nsee('2:slow', slow)\nsee('3:extra', extra)\n"),
+    (_M, "root", "from branchy2_p import *\nsee('1:quick', quick)\nsee('2:steady', steady)\n"),
+    (_M, "init", "from .settings import VERSION\nsee('0:VERSION', VERSION)\n\n\ndef plugin_settings():\n    from .settings import load\n    return load()\n\n\ndef application_settings():\n    from ..settings import load\n    return load()\n\n\n"
+                 "see('call:plugin', plugin_settings())\nsee('call:application', application_settings())\n"),
+    (_M, "init", "import settings\nsee('0:settings', settings)\n\n\ndef plugin_settings():\n    from .settings import load\n    return load()\n\n\ndef application_settings():\n    from ..settings import load\n    return load()\n\n\n"
+                 "def top_settings():\n    from settings import load\n    return load()\n\n\nsee('call:plugin', plugin_settings())\nsee('call:application', application_settings())\nsee('call:top', top_settings())\n"),
     (_M, "root", "def user():\n    import al_p\n    from be_p import fb\n    see('1:al_p', al_p)\n    return fb\n\n\nsee('call:user', user())\nimport al_p\nfrom be_p import fa\nsee('2:al_p.fa', al_p.fa)\nsee('3:fa', fa)\n"),
     (_M, "member", "from .core import KC\nfrom .tup import *\nfrom .core import core_fn\nsee('1:KC', KC)\nsee('2:core_fn', core_fn)\nsee('3:t1', t1)\n"),
     (_M, "root", "import json\nfrom al_p import *\nimport json\nsee('1:json', json)\nsee('2:fa', fa)\n"),
